@@ -251,3 +251,77 @@ func lineCommentEvidence(info *types.Info, fd *ast.FuncDecl, cl *ast.CompositeLi
 	}
 	return how, ""
 }
+
+// attachedCommentOneLine (R-POS/attach): the line range of a fragment is
+// [Start.Line, End.Line+1) of its node. A comment attached to a node (a
+// pointer, next to the node's own tokens) is consumed after the node's End was
+// fixed; that is harmless exactly when the comment cannot reach beyond the
+// node's last line — a line comment. A comment built from a token that may be
+// a block comment spans lines the node's range does not cover: the editor
+// edit replaces fewer lines than its text holds. Such a literal is accepted
+// only where the holder's End is extended to the comment's End afterwards.
+func attachedCommentOneLine(r *core.Run) {
+	r.Rule("R-POS/attach", "every *Comment the parser attaches to a node (a &Comment{…} literal) is built from a token known to be a line comment there, or the function that stores it extends the End of the node it stores it in (`x.End = <comment or token>.End`) afterwards: the node's line range covers every line of the tokens consumed into it")
+	pk := r.P.Pkg(parserRel)
+	if pk == nil {
+		r.Fatal("anchor: package %s not found", parserRel)
+		return
+	}
+	info := pk.TypesInfo
+	lineConst := pk.Types.Scope().Lookup("COMMENT")
+	if lineConst == nil {
+		r.Fatal("anchor: parser.COMMENT not found")
+		return
+	}
+	n := 0
+	core.AllFuncDecls(pk, func(fd *ast.FuncDecl) {
+		if fd.Body == nil {
+			return
+		}
+		var stack []ast.Node
+		ast.Inspect(fd.Body, func(nd ast.Node) bool {
+			if nd == nil {
+				stack = stack[:len(stack)-1]
+				return true
+			}
+			stack = append(stack, nd)
+			u, ok := nd.(*ast.UnaryExpr)
+			if !ok || u.Op != token.AND {
+				return true
+			}
+			cl, ok := core.Unparen(u.X).(*ast.CompositeLit)
+			if !ok || !strings.HasSuffix(core.TypeStr(info.TypeOf(cl)), "parser.Comment") {
+				return true
+			}
+			n++
+			o := r.Add("R-POS/attach", parserRel+"."+core.FuncName(fd)+" | attached comment", cl.Pos(), "comment attached to a node")
+			if how, _ := lineCommentEvidence(info, fd, cl, append(append([]ast.Node{}, stack...), cl), lineConst); how != "" {
+				o.Auto("a line comment (%s): it ends on the line it starts on", how)
+				return true
+			}
+			// the End of the holder is extended in this function after the literal
+			extended := false
+			ast.Inspect(fd.Body, func(m ast.Node) bool {
+				as, ok := m.(*ast.AssignStmt)
+				if !ok || as.Pos() < cl.Pos() || len(as.Lhs) != 1 || len(as.Rhs) != 1 {
+					return true
+				}
+				l, ok := core.Unparen(as.Lhs[0]).(*ast.SelectorExpr)
+				if !ok || l.Sel.Name != "End" {
+					return true
+				}
+				if rsel, ok := core.Unparen(as.Rhs[0]).(*ast.SelectorExpr); ok && rsel.Sel.Name == "End" {
+					extended = true
+				}
+				return true
+			})
+			if extended {
+				o.Auto("the holder's End is moved to the end of the comment")
+			} else {
+				o.Fail("the comment may be a block comment, which can run over several lines, and the End of the node it is attached to stays where it was: the fragment's line range is shorter than its text, the editor edit built from it leaves the comment's further lines in the buffer")
+			}
+			return true
+		})
+	})
+	r.Floor("R-POS/attach", 1, "endStatement")
+}
